@@ -150,6 +150,26 @@ def specLayout (fan : Bool) (layouts : List (Nat × List (String × String))) (s
       | none => false) then some "C23.response-items-differ-from-request-items"
   else none
 
+/-- The per-replica fan-outs (DescribeLogDirs with topics, AlterReplicaLogDirs) send every requested partition to each
+of its replicas. What is checked for them: an item is in exactly the shards of its replica brokers (layout value
+`b1+b2+…`), or in one error shard when unmappable, as often as requested in each. The literal property ("in exactly
+one shard") fails for them whenever a partition has two replicas; the driver reports that under its own stable key. -/
+def specReplica (requested : List String) (layout : List (String × String)) (shards : List ObsShard) : Option String :=
+  let want (x : String) : List String := match layout.find? (·.1 == x) with
+    | some (_, d) => if isErrDest d then [d] else d.splitOn "+"
+    | none => []
+  if shards.any (fun s => s.req.any (fun x => !requested.contains x)) then some "C23.shard-has-unrequested-item"
+  else if (dedupS requested).any (fun x => !sameMultiset ((shards.filter (fun s => s.req.contains x)).map (·.dest)) (want x)) then
+    some "C23.replica-shards-differ-from-replica-set"
+  else if shards.any (fun s => (dedupS s.req).any (fun x => countOf x s.req != countOf x requested)) then some "C23.item-count-differs-from-request"
+  else none
+
+/-- Some requested item has two or more replicas: the literal one-shard property cannot hold for a per-replica fan-out. -/
+def replicated (requested : List String) (layout : List (String × String)) : Bool :=
+  requested.any fun x => match layout.find? (·.1 == x) with
+    | some (_, d) => !isErrDest d && (d.splitOn "+").length ≥ 2
+    | none => false
+
 def sameSet (a b : List String) : Bool := a.all b.contains && b.all a.contains
 
 /-- Clause 2: the merged response of `Request` holds each requested item exactly once (as often as requested where the
